@@ -421,6 +421,14 @@ func (g *G) planBlock(bt string, bs *schema.BlockSchema, depth int) *BlockPlan {
 				}
 				// remove any planned occurrence, then pin
 				blk.Body.remove(st.Name)
+				if val != "" && !g.O.NoOddities && !g.O.Simple && g.coin(0.12) {
+					// written, but not as a string literal: the block has no address at all
+					// (an optional step is only skipped when the attribute is absent)
+					odd := []*E{lit(cty.NumberIntVal(2)), raw("var.unknown"), lit(cty.True)}[g.pick(3)]
+					blk.Body.Items = append(blk.Body.Items, &Item{Attr: &AttrPlan{Name: st.Name, Schema: bs.Body.Attributes[st.Name], Expr: odd, Fixed: true}})
+					ok = false
+					val = ""
+				}
 				if val != "" {
 					blk.Body.Items = append(blk.Body.Items, &Item{Attr: &AttrPlan{Name: st.Name, Schema: bs.Body.Attributes[st.Name], Expr: lit(cty.StringVal(val)), Fixed: true}})
 					parts = append(parts, val)
